@@ -369,7 +369,7 @@ pub fn update_impl<Ef: SimEffect>(event: Event, model: &mut AppModel, legacy: Op
     let cmd = match event {
         Event::Run(cmd) => {
             model.log.push(LogEntry::Run);
-            super::build::build::<Ef>(&cmd, 0, &mut model.handles, legacy)
+            super::build::build::<Ef>(&cmd, 0, &model.handles, legacy)
         }
         Event::Emitted(em) => {
             model.log.push(LogEntry::Em {
@@ -381,13 +381,14 @@ pub fn update_impl<Ef: SimEffect>(event: Event, model: &mut AppModel, legacy: Op
                 trace: em.trace.clone(),
             });
             match em.cont {
-                Some(c) => super::build::build::<Ef>(&c, em.val, &mut model.handles, legacy),
+                Some(c) => super::build::build::<Ef>(&c, em.val, &model.handles, legacy),
                 None => Command::done(),
             }
         }
         Event::Abort(h) => {
             model.log.push(LogEntry::Abort(h));
-            if let Some(handle) = model.handles.get(&h) {
+            let f = model.handles.lock().unwrap().get(&h).cloned();
+            if let Some(handle) = f {
                 handle();
             }
             Command::done()
